@@ -313,6 +313,23 @@ fn main() {
                 expect: "[1, 2] [3, 4, 5]\n[1, 2, 3, 4] [3, 4]\n[1, 2, 3, 4] [0, 1, 2, 3] [1] 2 1 [2] [1, 2, 3] 1 [2, 3]\n6\n",
             },
             Caller {
+                what: "by-reference flatten / unflatten / split of arrays whose elements BORROW from locals (no 'static bound on the views)",
+                externs: &[],
+                src: r#"
+fn flat<'a, 's>(rows: &'a GenericArray<GenericArray<&'s str, U2>, U3>) -> &'a GenericArray<&'s str, U6> { rows.flatten() }
+fn main() {
+    let words: Vec<String> = ["a", "bb", "ccc", "d", "ee", "fff"].iter().map(|s| s.to_string()).collect();
+    let mut rows: GenericArray<GenericArray<&str, U2>, U3> = arr![arr![&words[0][..], &words[1][..]], arr![&words[2][..], &words[3][..]], arr![&words[4][..], &words[5][..]]];
+    println!("{:?}", flat(&rows).as_slice());
+    { let m: &mut GenericArray<&str, U6> = (&mut rows).flatten(); m[5] = &words[0][..]; }
+    let back: &GenericArray<GenericArray<&str, U3>, U2> = flat(&rows).unflatten();
+    let (l, r): (&GenericArray<&str, U2>, &GenericArray<&str, U4>) = flat(&rows).split();
+    println!("{:?} {:?} {:?}", back[1].as_slice(), l.as_slice(), r.as_slice());
+}
+"#,
+                expect: "[\"a\", \"bb\", \"ccc\", \"d\", \"ee\", \"fff\"]\n[\"d\", \"ee\", \"a\"] [\"a\", \"bb\"] [\"ccc\", \"d\", \"ee\", \"a\"]\n",
+            },
+            Caller {
                 what: "Clone / Copy / Send / Sync of arrays whose elements BORROW from locals (no 'static bound), as for native arrays",
                 externs: &[],
                 src: r#"
